@@ -13,7 +13,7 @@ open Pymeeus Pymeeus.PQ Pymeeus.GenQ Pymeeus.Refine Pymeeus.Spec
 /-- "building an Epoch from year, month, day and reading the date back returns exactly that date" -/
 theorem roundtrip (y m d : Int) (h : Valid y m d) :
     get_date (compute_jde y m (ofInt d)) = .ok (y, m, (d : ℚ)) := by
-  rw [compute_jde_int, get_date_int, roundtrip_int y m d h]
+  rw [compute_jde_int y m d h, get_date_int, roundtrip_int y m d h]
 
 /-- The code's leap rule is the leap rule of the civil calendar. -/
 theorem leap_rule (y : Int) : is_leap y = Spec.leap y := by
@@ -73,7 +73,7 @@ theorem refuses_day_past_month_end (y m d : Int) (hm1 : 1 ≤ m) (hm12 : m ≤ 1
 /-- "Consecutive civil dates are exactly 1.0 Julian Day apart (4 Oct 1582 is followed by 15 Oct 1582)" -/
 theorem consecutive (y m d : Int) (h : Valid y m d) :
     compute_jde (next y m d).1 (next y m d).2.1 (ofInt (next y m d).2.2) = compute_jde y m (ofInt d) + 1 := by
-  rw [compute_jde_int, compute_jde_int, consecutive_int y m d h]
+  rw [compute_jde_int _ _ _ (next_valid y m d h), compute_jde_int y m d h, consecutive_int y m d h]
   push_cast; ring
 
 /-- "-4712-01-01 12h is 0.0" -/
